@@ -32,6 +32,7 @@ def units():
 
 
 META = dict(
+    technique='CBMC 6.11 function contracts (dfcc) on 846 extracted vec_t functions with scalar arithmetic abstracted to uninterpreted functions (term identity with the scalar definition)',
     level="proof",
     level_text="Each vec_t overload is instantiated through a use site (so the overload real user code binds to is the one verified), extracted from /repo on every run, and proved by CBMC to return, for all operand values, exactly the value the scalar definition gives per component (C semantics of `T op U` with the usual arithmetic conversions, computed by the spec generator independently of the library's decltype). Bit-precise for integers and single floating-point operations, all 2^k inputs, no bound; signed overflow / division by zero / MIN/-1 are excluded by generated preconditions, so CBMC's own overflow and division checks prove absence of UB under them.",
     level_note="Trusted: clang AST + cxx2c + CBMC. quick tier: element types int32/uint8/float (+4 mixed pairs) x shapes 2,3,3a,4; thorough: all 10 element types, 12 mixed pairs. Multi-operation float expressions (dot, cross, length, normalize, interpolate_uv, float sum/product) are decided over the reals by z3 (machine arithmetic treated as mathematical) or unverified; libm (sin, cos, sqrt) and SSE rcp/rsqrt are uninterpreted.",
